@@ -166,7 +166,8 @@ Sleep(T) == IF T.cancelled /\ Variant # "ignore_ctx" THEN Fin(T, "ctx") ELSE [T 
 Running(T) == T.pc \notin {"idle", "done"}
 ExpireEn(T) == ~T.expired /\ Running(T)
 Expire(T) == [T EXCEPT !.expired = TRUE]
-CancelEn(T) == ~T.cancelled /\ Running(T)
+\* (the caller is assumed not to cancel before the statement itself was answered: that is a failed statement, no wait)
+CancelEn(T) == ~T.cancelled /\ Running(T) /\ T.pc # "ddl"
 Cancel(T) == [T EXCEPT !.cancelled = TRUE]
 \* a peer learns the polled node's version / a row becomes usable or unusable / somebody else changes the schema
 EnvEn(T, rows, local) == T.envs < MaxEnv /\ Running(T) /\ <<rows, local>> # <<T.rows, T.local>>
